@@ -103,3 +103,42 @@ LIB['pwf_expand'] = _we
 LIB['pmwf_expandmap'] = _wm
 L('minst_nil', [phi], z3.Implies(wf_py(phi), minst_py(phi, MMp.mk('mnil')) == phi), ind=phi,
   triggers=[minst_py(phi, MMp.mk('mnil'))], split_depth=1)
+
+# --- maps: update, inclusion, monotonicity of instantiation (matching, C13) ------------------------------------------------------
+m2_ = z3.Const('m2_', MMap)
+m3_ = z3.Const('m3_', MMap)
+pv_ = z3.Const('pv_', PPat)
+L('expandmap_pset', [pm_, kk, pv_], expandmap(pset(pm_, kk, pv_)) == mset(expandmap(pm_), kk, expand(pv_)), ind=pm_,
+  triggers=[pset(pm_, kk, pv_)], rewrite=True)
+L('pmwf_pset', [pm_, kk, pv_], z3.Implies(z3.And(pmwf(pm_), pwf(pv_)), pmwf(pset(pm_, kk, pv_))), ind=pm_,
+  triggers=[pset(pm_, kk, pv_)])
+L('mset_has', [m_, kk, psi, X], mhas(mset(m_, kk, psi), X) == z3.Or(X == kk, mhas(m_, X)), ind=m_,
+  triggers=[mhas(mset(m_, kk, psi), X)], rewrite=True)
+L('mset_get', [m_, kk, psi, X], mget(mset(m_, kk, psi), X) == z3.If(X == kk, psi, mget(m_, X)), ind=m_,
+  triggers=[mget(mset(m_, kk, psi), X)], rewrite=True)
+L('mset_distinct', [m_, kk, psi], z3.Implies(mdistinct(m_), mdistinct(mset(m_, kk, psi))), ind=m_,
+  triggers=[mset(m_, kk, psi)], uses=['mset_has'])
+L('submap_get', [m_, m2_, X], z3.Implies(z3.And(submap(m_, m2_), mhas(m_, X)),
+                                         z3.And(mhas(m2_, X), mget(m2_, X) == mget(m_, X))), ind=m_,
+  triggers=[[submap(m_, m2_), mhas(m_, X)], [submap(m_, m2_), mget(m_, X)]])
+L('submap_trans', [m_, m2_, m3_], z3.Implies(z3.And(submap(m_, m2_), submap(m2_, m3_)), submap(m_, m3_)), ind=m_,
+  triggers=[[submap(m_, m2_), submap(m2_, m3_)]], uses=['submap_get'])
+L('submap_mset', [m_, m2_, kk, psi], z3.Implies(z3.And(submap(m_, m2_), z3.Not(mhas(m_, kk))), submap(m_, mset(m2_, kk, psi))),
+  ind=m_, triggers=[[submap(m_, m2_), mset(m2_, kk, psi)]], uses=['mset_has', 'mset_get'])
+L('submap_cons', [m_, m2_, kk, psi], z3.Implies(z3.And(submap(m_, m2_), z3.Not(mhas(m_, kk))),
+                                                 submap(m_, MMp.mk('mcons', kk, psi, m2_))), ind=m_,
+  triggers=[submap(m_, MMp.mk('mcons', kk, psi, m2_))])
+L('submap_refl', [m_], z3.Implies(mdistinct(m_), submap(m_, m_)), ind=m_, triggers=[submap(m_, m_)], uses=['submap_cons'])
+L('submap_self_mset', [m_, kk, psi], z3.Implies(z3.And(mdistinct(m_), z3.Not(mhas(m_, kk))), submap(m_, mset(m_, kk, psi))),
+  nonind=True, triggers=[mset(m_, kk, psi)], hints=[('submap_refl', [m_]), ('submap_mset', [m_, m_, kk, psi])])
+L('covers_mono', [phi, m_, m2_], z3.Implies(z3.And(covers(phi, m_), submap(m_, m2_)), covers(phi, m2_)), ind=phi,
+  triggers=[[covers(phi, m_), submap(m_, m2_)]], uses=['submap_get'])
+L('minst_mono', [phi, m_, m2_], z3.Implies(z3.And(covers(phi, m_), submap(m_, m2_)), minst_py(phi, m_) == minst_py(phi, m2_)),
+  ind=phi, triggers=[[covers(phi, m_), submap(m_, m2_)]], uses=['submap_get'])
+L('submap_mset_left', [m_, m2_, kk, psi], z3.Implies(z3.And(submap(m_, m2_), mhas(m2_, kk), mget(m2_, kk) == psi),
+                                                      submap(mset(m_, kk, psi), m2_)), ind=m_,
+  triggers=[submap(mset(m_, kk, psi), m2_)])
+L('submap_get_p', [pm_, m2_, X], z3.Implies(z3.And(submap(expandmap(pm_), m2_), phas(pm_, X)),
+                                            z3.And(mhas(m2_, X), mget(m2_, X) == expand(pget(pm_, X)))),
+  nonind=True, triggers=[[submap(expandmap(pm_), m2_), phas(pm_, X)]],
+  hints=[('submap_get', [expandmap(pm_), m2_, X]), ('expandmap_has', [pm_, X]), ('expandmap_get', [pm_, X])])
